@@ -9,7 +9,9 @@ open Aiocoap.Oscore (RW)
 consulted with exactly the sequence number those parameters carry -/
 theorem requestSeqno_of_recvParams {tb : Nat} {B : Ctx} {o : Msg} {rp : RecvParams}
     (h : recvParams tb B none o = .ok rp) : requestSeqno B o = rp.seqno := by
-  obtain ⟨option, u, s, _, hopt, hu, hids, hsel, _, _, _, _, _, hseq⟩ := recvParams_ok_inv h
+  obtain ⟨option, u, s, hcode, hopt, hu, hids, hsel, _, _, _, _, _, hseq⟩ := recvParams_ok_inv h
+  have hr : isResponse o.code = false := by simpa using hcode.symm
+  rw [hr] at hids
   unfold requestSeqno
   simp only [hopt, hu, hids, Bool.not_true, Bool.false_eq_true, ↓reduceIte]
   rw [hseq]
